@@ -36,7 +36,8 @@ theorem look_ren (env : Env) (n : String) : look (renEnv ρ env) (ρ n) = look e
       simp only [h, this, decide_false]
       exact ih
 
-theorem sRead_ren (inF : Bool) (env : Env) (t : Tok) : sRead inF (renEnv ρ env) (t.ren ρ) = sRead inF env t := by
+theorem sRead_ren (inF : Bool) (env : Env) (t : Tok) (root : Bool := false) :
+    sRead inF (renEnv ρ env) (t.ren ρ) root = sRead inF env t root := by
   unfold sRead
   have : (t.ren ρ).text = "..." ↔ t.text = "..." := by
     simp only [Tok.ren]
@@ -187,6 +188,18 @@ theorem eV_ren (inF : Bool) (env : Env) (v : Var) : eV inF (renEnv ρ env) (v.re
     rw [eP_ren inF env p, eSs_ren inF env ss]
 end
 
+theorem ePT_ren (inF : Bool) (env : Env) (p : Prefix) : ePT inF (renEnv ρ env) (p.ren ρ) = ePT inF env p := by
+  cases p with
+  | name t => exact sRead_ren hρ inF env t true
+  | expr e => exact eE_ren hρ inF env e
+
+theorem eVT_ren (inF : Bool) (env : Env) (v : Var) : eVT inF (renEnv ρ env) (v.ren ρ) = eVT inF env v := by
+  cases v with
+  | name t => exact sRead_ren hρ inF env t true
+  | expr sp p ss =>
+    show ePT inF (renEnv ρ env) (p.ren ρ) ++ eSs inF (renEnv ρ env) (ss.ren ρ) = ePT inF env p ++ eSs inF env ss
+    rw [ePT_ren inF env p, eSs_ren hρ inF env ss]
+
 theorem sTargets_ren (inF : Bool) (env : Env) (vars : VarList) (es : ExprList) :
     sTargets inF (renEnv ρ env) (vars.ren ρ) (es.ren ρ) = sTargets inF env vars es := by
   cases vars with
@@ -200,9 +213,9 @@ theorem sTargets_ren (inF : Bool) (env : Env) (vars : VarList) (es : ExprList) :
         show ([] : List Ans) ++ sAssign (renEnv ρ env) (n.ren ρ) ++ sTargets inF (renEnv ρ env) (rest.ren ρ) (ExprList.nil.ren ρ) = [] ++ sAssign env n ++ sTargets inF env rest .nil
         rw [ih, sAssign_ren hρ]
       | expr vsp p ss =>
-        show ([] : List Ans) ++ eV inF (renEnv ρ env) ((Var.expr vsp p ss).ren ρ) ++ sTargets inF (renEnv ρ env) (rest.ren ρ) (ExprList.nil.ren ρ) =
-          [] ++ eV inF env (.expr vsp p ss) ++ sTargets inF env rest .nil
-        rw [ih, eV_ren hρ]
+        show ([] : List Ans) ++ eVT inF (renEnv ρ env) ((Var.expr vsp p ss).ren ρ) ++ sTargets inF (renEnv ρ env) (rest.ren ρ) (ExprList.nil.ren ρ) =
+          [] ++ eVT inF env (.expr vsp p ss) ++ sTargets inF env rest .nil
+        rw [ih, eVT_ren hρ]
     | cons e es' =>
       have ih := sTargets_ren inF env rest es'
       cases v with
@@ -211,10 +224,10 @@ theorem sTargets_ren (inF : Bool) (env : Env) (vars : VarList) (es : ExprList) :
           eE inF env e ++ sAssign env n ++ sTargets inF env rest es'
         rw [ih, eE_ren hρ, sAssign_ren hρ]
       | expr vsp p ss =>
-        show eE inF (renEnv ρ env) (e.ren ρ) ++ eV inF (renEnv ρ env) ((Var.expr vsp p ss).ren ρ) ++
+        show eE inF (renEnv ρ env) (e.ren ρ) ++ eVT inF (renEnv ρ env) ((Var.expr vsp p ss).ren ρ) ++
             sTargets inF (renEnv ρ env) (rest.ren ρ) (es'.ren ρ) =
-          eE inF env e ++ eV inF env (.expr vsp p ss) ++ sTargets inF env rest es'
-        rw [ih, eE_ren hρ, eV_ren hρ]
+          eE inF env e ++ eVT inF env (.expr vsp p ss) ++ sTargets inF env rest es'
+        rw [ih, eE_ren hρ, eVT_ren hρ]
 
 mutual
 theorem dE_ren (inF : Bool) (env : Env) (e : Expr) : dE inF (renEnv ρ env) (e.ren ρ) = dE inF env e := by
@@ -461,9 +474,9 @@ theorem sStmt_ren (inF : Bool) (env : Env) (s : Stmt) :
     | nil => exact ⟨rfl, rfl⟩
     | cons base more =>
       refine ⟨?_, rfl⟩
-      show (if (!more.isEmpty || method.isSome) = true then sRead inF (renEnv ρ env) (base.ren ρ) else sAssign (renEnv ρ env) (base.ren ρ)) ++
+      show (if (!more.isEmpty || method.isSome) = true then sRead inF (renEnv ρ env) (base.ren ρ) true else sAssign (renEnv ρ env) (base.ren ρ)) ++
           sBody (renEnv ρ env) method (body.ren ρ) =
-        (if (!more.isEmpty || method.isSome) = true then sRead inF env base else sAssign env base) ++ sBody env method body
+        (if (!more.isEmpty || method.isSome) = true then sRead inF env base true else sAssign env base) ++ sBody env method body
       rw [sRead_ren hρ, sBody_ren env method body, sAssign_ren hρ]
   | localFunc sp name body =>
     refine ⟨?_, ?_⟩
